@@ -215,7 +215,7 @@ theorem scanRoots_fuel (g : State) (hw : WF g) (hr : RootsOk g) : (scanRoots g).
 
 theorem collectRoots_fuel (g : State) (hw : WF g) (hr : RootsOk g) :
     (collectRoots g).oof = g.oof :=
-  collectRoots_oof g hw hr
+  collectRoots_oof_c g hw hr
 
 theorem onePass_fuel (g : State) (hw : WF g) (hr : RootsOk g) : (onePass g).oof = g.oof :=
   onePass_oof g hw hr
